@@ -45,7 +45,16 @@ def _run_variant(args):
     tmp = tempfile.mkdtemp(prefix='verif_selftest_')
     try:
         make_copy(tmp, root)
-        edits = var['edits'] if 'edits' in var else [var]
+        if 'patch' in var:
+            import subprocess
+            p = subprocess.run(['git', 'apply', '--include=biom/*',
+                                var['patch']], cwd=tmp, capture_output=True,
+                               text=True)
+            if p.returncode:
+                return {'id': var['id'], 'status': 'stale',
+                        'why': 'patch does not apply to the current tree'}
+        edits = [] if 'patch' in var else (
+            var['edits'] if 'edits' in var else [var])
         for ed in edits:
             path = os.path.join(tmp, ed['file'])
             with open(path, encoding='utf8') as f:
@@ -79,9 +88,36 @@ def _run_variant(args):
         shutil.rmtree(tmp, ignore_errors=True)
 
 
+def patch_variants(prop):
+    """Independent seeded changes (must be reported by the checks recorded
+    in seeded/index.json) and refactor twins (must stay silent)."""
+    import json
+    out = []
+    sdir = os.path.join(VERIF, 'seeded')
+    idx = {}
+    if os.path.exists(os.path.join(sdir, 'index.json')):
+        with open(os.path.join(sdir, 'index.json')) as f:
+            idx = json.load(f)
+    for sid, hits in sorted(idx.items()):
+        if prop in hits:
+            out.append({'id': 'seed:' + sid, 'kind': 'break',
+                        'patch': os.path.join(sdir, sid, 'patch.diff'),
+                        'rule': tuple(h.split('@')[0] for h in hits[prop])})
+    tdir = os.path.join(VERIF, 'twins')
+    if os.path.isdir(tdir):
+        for fn in sorted(os.listdir(tdir)):
+            if fn.endswith('.diff'):
+                out.append({'id': 'twin:' + fn[:-5], 'kind': 'twin',
+                            'patch': os.path.join(tdir, fn)})
+    return out
+
+
+VERIF = os.path.dirname(os.path.dirname(os.path.abspath(__file__)))
+
+
 def run_for_property(prop, say=print, root=None, workers=16):
     from .selftest_variants import VARIANTS
-    todo = [v for v in VARIANTS if prop in v['props']]
+    todo = [v for v in VARIANTS if prop in v['props']] + patch_variants(prop)
     if not todo:
         return {'selftest_variants': 0}
     root = root or REPO
